@@ -7,6 +7,8 @@ NOTES = ("All checks are generated-input search (rapidcheck over tape-decoded ge
          "(ASan+UBSan, -D_GLIBCXX_ASSERTIONS, -DTHEO_VERIF) keyed by a content hash.")
 ENGINES = {
     "p_sem": "rapidcheck tape-decoded typed program generator vs reference interpreter (final state, stepping trace, frame accounting, value range)",
+    "p_accept": "rapidcheck-generated sources + token-level mutants + exhaustive single-token edits vs reference acceptor",
+    "p_code": "rapidcheck-generated programs vs static bytecode verifier / table-inverse invariants with dynamic cross-checks",
     "p_scan": "rapidcheck tape generator + exhaustive enumerators vs reference lexer / include resolver",
 }
 
@@ -177,6 +179,44 @@ PROPS["C04"] = dict(
     level_text=("Exploration with an exhaustive sub-space: acceptance by the compiler is compared with an independent recogniser of the documented "
                 "grammar and static rules on generated sources and their 1-4-edit neighbours, and on all single-token edits of fixed programs."),
     level_note="trusted: reference lexer and acceptor (harness/ref/ref_accept.hpp)",
+)
+
+
+PROPS["C03"] = dict(
+    harness="p_code",
+    phases=dict(quick=[rc(8, 1200), rc(8, 6000, flavour="fast", seed_offset=100)],
+                thorough=[rc(16, 15000), rc(16, 150000, flavour="fast", seed_offset=100)]),
+    rule=("cases: every successfully compiled generated program (typed generator incl. user macros, free layout, 1-3 files) plus unusual "
+          "declarations: repeated parameter names (25% of cases allow them), OUT = parameter, no parameters, redefined names. Oracle (static, "
+          "all paths): bytecode verifier written from instr.hpp: PREPARE first / HALT last, routine extents from EXEC entries, jumps stay "
+          "inside their routine and never land inside a call sequence, every register operand < the frame size of the frame it addresses "
+          "(ARG targets in the callee frame, ARG sources / PREPARE targets / RET targets in the caller frame), PREPARE ARG* EXEC straight "
+          "line with ARG i filling parameter i, all PREPAREs of an entry agree on size and stack map, stack-map keys inside the frame, "
+          "argument count = parameter count of the named program; plus a dynamic monitor validating the operands of every executed "
+          "instruction against the live frames (<=20000 steps) under ASan. Non-trivial: program with >=1 call; distinct by content hash."),
+    min_nontrivial=dict(quick=3000, thorough=60000),
+    assumptions=["sources the compiler rejects (e.g. after a fix: repeated parameter names) are counted as discards, not judged"],
+    technique="property-based testing: rapidcheck-generated programs; static bytecode verifier over all instructions + operand monitor on every executed instruction",
+    level_text="Exploration: a static well-formedness verifier (all paths of each emitted program) and a dynamic operand monitor on tens of thousands of generated programs including unusual declarations.",
+    level_note="trusted: the verifier (harness/props/p_code.cpp), read-only VM hooks, ASan",
+)
+
+PROPS["C08"] = dict(
+    harness="p_code",
+    phases=dict(quick=[rc(8, 1200), rc(8, 6000, flavour="fast", seed_offset=100)],
+                thorough=[rc(16, 15000), rc(16, 150000, flavour="fast", seed_offset=100)]),
+    rule=("cases: generated programs in free layout (several statements per line, program headers sharing a line with other code, "
+          "comments), split over 1-5 files at arbitrary token boundaries incl. nested includes, half of them with user macros defined "
+          "in the main or in an included file. Oracle: potential_breaks and line_info are exact inverses without duplicates or empty "
+          "entries; instruction is POTENTIAL_BREAK <=> listed; every location names a supplied file (never __standards__) and a line on "
+          "which the reference lexer finds a token; every available location can be enabled and every location a stepping run reports "
+          "(<=400 stops) can be enabled. Non-trivial: >=2 sites and a line with >=2 sites or a PROGRAM header sharing its line with "
+          "preceding code; distinct by content hash."),
+    min_nontrivial=dict(quick=3000, thorough=60000),
+    assumptions=["'a token of the program text stands on the line' = some non-include token ends on that line of that file"],
+    technique="property-based testing: rapidcheck-generated free-layout multi-file programs; table-inverse / site / real-line invariants + stepping-vs-enable corollary",
+    level_text="Exploration: table invariants on tens of thousands of generated free-layout, file-split programs.",
+    level_note="trusted: reference lexer for token lines; generator",
 )
 
 
